@@ -150,11 +150,15 @@ def parse_google_drive_url(url):
     if path[1] != "d":
         return None
 
-    if path[-1] == "pub":
-        if path[2] != "e":
+    # NOTE: a public link is /<type>/d/e/<id>/pub
+    if path[-1] == "pub" and len(path) > 3:
+        if path[2] != "e" or not path[3]:
             return None
 
         return GoogleDrivePublicLink(drive_type, path[3])
+
+    if not path[2]:
+        return None
 
     return GoogleDriveFile(drive_type, path[2])
 
